@@ -9,18 +9,27 @@ CONSTANTS NEPs,       \* set of endpoint counts, e.g. {2, 3}
           NSteps,     \* number of steps (Pattern 0)
           WithHealth, \* may a health round be inserted between requests (Pattern 0)
           Pattern,    \* 0: free sequence of NSteps steps; 1: req, burst; 2: req, health, burst
-          BurstN      \* concurrent requests in a burst
+          BurstN,     \* concurrent requests in a burst
+          Placements, \* "all": every endpoint lists m1; "split": e1 lists m1, the others m2
+          ReqModels,  \* model names requests may ask for ("mx" is listed nowhere)
+          EpTypes,    \* endpoint type of the whole stack: "openai-compatible" | "vllm" (native Anthropic support)
+          BootKinds   \* per endpoint at boot: "up" | "sick" (health 503) | "dead" (connection refused)
 VARIABLE scn
 EPS == {[i \in 1..n |-> "e" \o ToString(i)] : n \in NEPs}
 Range(s) == {s[i] : i \in 1..Len(s)}
 Init == \E eps \in EPS : \E en \in Engines : \E lb \in Balancers : \E fr \in Framings :
-           scn = [engine |-> en, lb |-> lb, framing |-> fr, eps |-> eps, steps |-> <<>>]
-Step(op) == \E f \in [Range(scn.eps) -> GKinds] : \E rt \in Routes :
-              scn' = [scn EXCEPT !.steps = Append(@, [op |-> op, route |-> rt, plans |-> f, n |-> IF op = "burst" THEN BurstN ELSE 1])]
+        \E pl \in Placements : \E bt \in [Range(eps) -> BootKinds] : \E ty \in EpTypes :
+           scn = [engine |-> en, lb |-> lb, framing |-> fr, eps |-> eps, placement |-> pl, boot |-> bt, eptype |-> ty, steps |-> <<>>]
+Step(op) == \E f \in [Range(scn.eps) -> GKinds] : \E rt \in Routes : \E m \in ReqModels :
+              /\ (Pattern = 4 /\ Len(scn.steps) > 0) =>
+                     (f = scn.steps[1].plans /\ rt = scn.steps[1].route /\ m = scn.steps[1].model)
+              /\ scn' = [scn EXCEPT !.steps = Append(@, [op |-> op, route |-> rt, model |-> m, plans |-> f,
+                                                       n |-> IF op = "burst" THEN BurstN ELSE 1])]
 HealthStep == scn' = [scn EXCEPT !.steps = Append(@, [op |-> "health"])]
 Shape == CASE Pattern = 1 -> <<"req", "burst">>
            [] Pattern = 2 -> <<"req", "health", "burst">>
            [] Pattern = 3 -> <<"burst">>
+           [] Pattern = 4 -> [i \in 1..11 |-> "req"]      \* long enough to open an engine breaker (threshold 5) under round-robin
            [] OTHER -> <<>>
 Len0 == IF Pattern = 0 THEN NSteps ELSE Len(Shape)
 Next == /\ Len(scn.steps) < Len0
